@@ -123,7 +123,7 @@ def gen_api_model(rng, natural=False, tier="quick"):
             cut = spec["cutoff_rho"] if embed else spec["cutoff"]
             holder, key = _resolve(spec, path)
             edge = round(rng.uniform(0.05, 0.95) * cut, 3)
-            exc = rng.choice(["ValueError", "ZeroDivisionError", "OverflowError", "KeyError", "TypeError", "UserError"])
+            exc = rng.choice(["ValueError", "ZeroDivisionError", "OverflowError", "KeyError", "TypeError", "UserError", "StopIteration", "IndexError"])
             holder[key] = {"k": "failing", "edge": edge, "exc": exc, "base": holder[key]}
             spec["meta"]["natural_fault"] = {"label": "user-callable-raises-" + exc, "section": "/".join(str(x) for x in path[:3]), "exc": exc, "edge": edge}
     return spec
@@ -191,7 +191,8 @@ def build_callable(fd):
         base = build_callable(fd["base"])
         edge = fd["edge"]
         exc = {"ValueError": ValueError, "ZeroDivisionError": ZeroDivisionError, "OverflowError": OverflowError,
-               "KeyError": KeyError, "TypeError": TypeError, "UserError": UserError}[fd["exc"]]
+               "KeyError": KeyError, "TypeError": TypeError, "UserError": UserError, "StopIteration": StopIteration,
+               "IndexError": IndexError}[fd["exc"]]
 
         def failing(r):
             if r > edge:
